@@ -20,10 +20,9 @@ abbrev World := List (Nat × List (Nat × Nat))
 
 namespace World
 def alive (w : World) (e : Nat) : Bool := w.any (fun p => p.1 == e)
-def comps (w : World) (e : Nat) : List (Nat × Nat) :=
-  match w.find? (fun p => p.1 == e) with
-  | some p => p.2
-  | none => []
+def comps : World → Nat → List (Nat × Nat)
+  | [], _ => []
+  | (k, cs) :: rest, e => if k == e then cs else comps rest e
 def has (w : World) (e c : Nat) : Bool := (w.comps e).any (fun p => p.1 == c)
 def variant (w : World) (e c : Nat) : Nat :=
   match (w.comps e).find? (fun p => p.1 == c) with
